@@ -149,7 +149,7 @@ fn action<T: Tier>(rep: &mut Report) {
     let mut uq = alphabet::uq(1);
     // unit quaternions with a tiny vector part (small rotations) or a tiny scalar part (nearly half turns):
     // (4^j - 1, 2^(j+1), 0, 0)/(4^j + 1) in every arrangement - where a "the vector part is numerically zero" short cut acts
-    for j in if T::EXACT { vec![5u32, 8] } else { vec![5u32, 8, 13, 20, 27] } {
+    for j in if T::EXACT { vec![5u32, 8] } else { (3u32..=27).step_by(2).collect() } {
         let (a, b, d) = ((1i64 << (2 * j)) - 1, 1i64 << (j + 1), (1i64 << (2 * j)) + 1);
         for big in 0..4 {
             for small in 0..4 {
